@@ -150,6 +150,7 @@ def run(ctx):
            construct="MAX_FAILURES = 3", detail=f"{norm.U(mf) if mf is not None else None}")
     ma = helpers.get("make_assignments")
     ctx.need(ma is not None, "overbook.make_assignments not found")
+    ma = _deferred_queue_store(ma, f"{s_p}.op_queue")
     ctx.touch(ma)
     gm = cfg_of(ma)
     tcs = calls_named(ma, "try_make_assignment")
@@ -279,6 +280,7 @@ def run(ctx):
             fs = gm.facts_at(trunc[0])
             res_names = [pool_parent_assign_name(c) for c in tcs]
             failed = any(rn and norm.entails(fs, ("truth", rn, False)) for rn in res_names)
+            failed = failed or any(norm.entails(fs, ("truth", norm.U(c), False)) for c in tcs)     # the name may have been replaced by its one definition
             tid = gm.node_of(trunc[0]).id
             again = gm.path_avoiding(tid, {hid} | {gm.node_of(n).id for n in full}, set())
             okt = failed and again is None
@@ -396,3 +398,107 @@ def _covers_touched(us, gu, olp: ast.For, pip_p: str, res_p: str):
     pops = [c for c in own_nodes(us.node) if isinstance(c, ast.Call) and isinstance(c.func, ast.Attribute) and norm.is_name(c.func.value, D) and c.func.attr in ("pop", "clear", "popitem")]
     ok = ok_init and ok_res and not dels and not pops
     return ok, f"{D} = all arrivals: {ok_init}; plus the pipeline of every result: {ok_res}; nothing removed: {not dels and not pops}"
+
+
+def _deferred_queue_store(ma, q: str):
+    """Normal form of the assignment pass for C18#4.  The pass may keep what is left of the queue in a local and store it once after the loop:
+
+        [A = s.op_queue]; W = []; for idx, op in enumerate(A | s.op_queue): ... W = (A | s.op_queue)[idx:]; break ...; s.op_queue = W; return R
+
+    which is  `... s.op_queue = s.op_queue[idx:]; return R ...; s.op_queue = []; return R`  (the form the rule is stated on): W is `[]` whenever the
+    loop is exhausted because its only other definition is followed at once by `break`, and W is read nowhere but in the final store.  Anything
+    else is left as it is (and judged as it is)."""
+    from ..model import Func
+    body = ma.node.body
+    stores = [n for n in own_nodes(ma.node) if isinstance(n, ast.Assign) and any(norm.U(t) == q for t in n.targets)]
+    if len(stores) != 1 or stores[0] not in body or not isinstance(stores[0].value, ast.Name) or len(stores[0].targets) != 1:
+        return ma
+    st = stores[0]
+    W = st.value.id
+    k = body.index(st)
+    if k + 2 != len(body) or not isinstance(body[k + 1], ast.Return) or not isinstance(body[k - 1], ast.For) or body[k - 1].orelse:
+        return ma
+    loop = body[k - 1]
+    if not (isinstance(loop.iter, ast.Call) and norm.is_name(loop.iter.func, "enumerate") and len(loop.iter.args) == 1 and isinstance(loop.target, ast.Tuple)
+            and len(loop.target.elts) == 2 and all(isinstance(e, ast.Name) for e in loop.target.elts)):
+        return ma
+    idx = loop.target.elts[0].id
+    # alias of the queue (optional): one top-level definition before the loop, never re-bound, never mutated
+    names_bound = {}
+    for n in own_nodes(ma.node):
+        if isinstance(n, (ast.Assign, ast.AugAssign, ast.AnnAssign, ast.For, ast.NamedExpr, ast.With)):
+            tg = n.targets if isinstance(n, ast.Assign) else ([n.target] if hasattr(n, "target") else [])
+            for t in tg:
+                for x in ast.walk(t):
+                    if isinstance(x, ast.Name):
+                        names_bound.setdefault(x.id, []).append(n)
+    alias = None
+    it = loop.iter.args[0]
+    if isinstance(it, ast.Name):
+        ds = names_bound.get(it.id, [])
+        if len(ds) == 1 and isinstance(ds[0], ast.Assign) and ds[0] in body[:k - 1] and norm.U(ds[0].value) == q and len(ds[0].targets) == 1:
+            alias = it.id
+        else:
+            return ma
+    elif norm.U(it) != q:
+        return ma
+    src_ok = {q} | ({alias} if alias else set())
+    wd = names_bound.get(W, [])
+    if len(wd) != 2 or not all(isinstance(d, ast.Assign) and len(d.targets) == 1 and isinstance(d.targets[0], ast.Name) for d in wd):
+        return ma
+    d0 = [d for d in wd if d in body[:k - 1] and isinstance(d.value, ast.List) and not d.value.elts]
+    d1 = [d for d in wd if d not in body and any(x is d for b in loop.body for x in ast.walk(b))]
+    if len(d0) != 1 or len(d1) != 1:
+        return ma
+    v = d1[0].value
+    if not (isinstance(v, ast.Subscript) and norm.U(v.value) in src_ok and isinstance(v.slice, ast.Slice) and v.slice.upper is None and v.slice.step is None
+            and norm.is_name(v.slice.lower, idx)):
+        return ma
+    blk = None
+    for owner in ast.walk(loop):
+        for _f, b in ((f_, getattr(owner, f_, None)) for f_ in ("body", "orelse")):
+            if isinstance(b, list) and d1[0] in b:
+                blk = b
+    if blk is None or blk.index(d1[0]) + 1 >= len(blk) or not isinstance(blk[blk.index(d1[0]) + 1], ast.Break) or blk.index(d1[0]) + 2 != len(blk):
+        return ma
+    # the break must leave *this* loop (no loop in between)
+    a = parent(d1[0])
+    while a is not None and a is not loop:
+        if isinstance(a, (ast.For, ast.While)):
+            return ma
+        a = parent(a)
+    # W and the alias are read nowhere else / never mutated
+    w_reads = [x for x in own_nodes(ma.node) if isinstance(x, ast.Name) and x.id == W and isinstance(x.ctx, ast.Load)]
+    if len(w_reads) != 1:
+        return ma
+    if alias:
+        uses = [x for x in own_nodes(ma.node) if isinstance(x, ast.Name) and x.id == alias and isinstance(x.ctx, ast.Load)]
+        if len(uses) != 2:        # the loop header and the slice
+            return ma
+    # rewrite on a copy
+    node = norm.clone(ma.node)
+    nb = node.body
+    nloop, nst, nret = nb[k - 1], nb[k], nb[k + 1]
+    qexpr = lambda ctx_: ast.parse(q, mode="eval").body if isinstance(ctx_, ast.Load) else nst.targets[0]
+    nloop.iter.args[0] = ast.parse(q, mode="eval").body
+    for owner in ast.walk(nloop):
+        for f_ in ("body", "orelse"):
+            b = getattr(owner, f_, None)
+            if isinstance(b, list):
+                for i_, s_ in enumerate(b):
+                    if isinstance(s_, ast.Assign) and len(s_.targets) == 1 and norm.is_name(s_.targets[0], W):
+                        s_.targets = [ast.parse(q, mode="eval").body]
+                        s_.targets[0].ctx = ast.Store()
+                        s_.value.value = ast.parse(q, mode="eval").body
+                        b[i_ + 1] = ast.copy_location(ast.Return(value=norm.clone(nret.value)), b[i_ + 1])
+    nst.value = ast.List(elts=[], ctx=ast.Load())
+    node.body = [s_ for s_ in nb if not (isinstance(s_, ast.Assign) and len(s_.targets) == 1 and isinstance(s_.targets[0], ast.Name) and s_.targets[0].id in ({W} | ({alias} if alias else set())))]
+    for z in ast.walk(node):
+        if not hasattr(z, "lineno") and isinstance(z, (ast.expr, ast.stmt)):
+            ast.copy_location(z, st)
+    ast.fix_missing_locations(node)
+    for n in ast.walk(node):
+        for ch in ast.iter_child_nodes(n):
+            ch._parent = n  # type: ignore[attr-defined]
+    node._parent = getattr(ma.node, "_parent", None)  # type: ignore[attr-defined]
+    return Func(ma.mod, ma.qual, node, ma.cls)
